@@ -33,7 +33,13 @@ type Prefix struct {
 // BuildPrefix mines n blocks on the real chain (and the model). custom may add
 // transactions to the block at height h (it sees the coins made so far).
 func BuildPrefix(name string, params refchain.Params, n uint32, custom func(h uint32, s *minichain.Spec, p *Prefix)) *Prefix {
-	p := &Prefix{Dir: ev.Scratch(name + "-prefix"), Params: params, Named: map[string]OP{}, Opts: minichain.Opts{Params: params}}
+	return BuildPrefixOpts(name, minichain.Opts{Params: params}, n, custom)
+}
+
+// BuildPrefixOpts is BuildPrefix with the chain / block store options the sessions will use too.
+func BuildPrefixOpts(name string, opts minichain.Opts, n uint32, custom func(h uint32, s *minichain.Spec, p *Prefix)) *Prefix {
+	params := opts.Params
+	p := &Prefix{Dir: ev.Scratch(name + "-prefix"), Params: params, Named: map[string]OP{}, Opts: opts}
 	e := minichain.Open(p.Dir, &p.Opts)
 	p.Model = refchain.New(params, minichain.GenesisHash, minichain.GenesisTime, minichain.PowBits)
 	prev := minichain.GenesisHash
